@@ -66,8 +66,8 @@ func runC18(c *core.Ctx) {
 			return
 		}
 		sendT := epoch.Add(time.Duration(c.Now))
-		if sendT.Unix() >= eraEndUnix-70 {
-			return // keep send and receive inside the NTP era the 32.32 conversion can represent
+		if sendT.Unix() >= eraEndUnix-1 {
+			return // the send instant itself must lie inside the NTP era; the receive instant may lie beyond it
 		}
 		ntpSec := sendT.Unix() + 2208988800
 		toBoundary := (64-ntpSec%64)*1_000_000_000 - int64(sendT.Nanosecond()) // ns until the next 64 s boundary (1..64e9)
@@ -105,7 +105,7 @@ func runC18(c *core.Ctx) {
 			capT = sendT
 		}
 		var off time.Duration
-		ocls := t.Weighted(3, 2, 2, 2, 2, 2, 3)
+		ocls := t.Weighted(3, 2, 2, 2, 2, 2, 3, 3)
 		const maxOff = int64(1)<<31*1_000_000_000 - 1
 		switch ocls {
 		case 0:
@@ -123,6 +123,13 @@ func runC18(c *core.Ctx) {
 			}
 		case 5:
 			off = time.Duration(int64(t.Draw(uint64(maxOff)))) * time.Duration(1-2*t.Intn(2))
+		case 7: // log-uniform magnitudes: every power-of-two band of nanoseconds up to 2^31 s
+			k := uint(t.Intn(61))
+			mag := int64(1)<<k + int64(t.Draw(uint64(1)<<k))
+			if mag > maxOff {
+				mag = maxOff
+			}
+			off = time.Duration(mag) * time.Duration(1-2*t.Intn(2))
 		case 6: // whole seconds of either sign (zero fractional part), small and large, odd and even
 			secs := int64([]int{2, 1, 4, 3600, 1 << 30, 86400, 3}[t.Intn(7)])
 			if t.Bool() {
@@ -220,7 +227,10 @@ func runC18(c *core.Ctx) {
 				c.Fingerprint(b2u(crossed), uint64(dcls), uint64(ocls), b2u(off < 0), phase, b2u(sendT.Nanosecond() == 0), b2u(withOffset))
 			}
 			c.Logf("send=%s d=%dns recv=%s -> estimate=%s capture=%s", sendT.Format(time.RFC3339Nano), d, recvT.Format(time.RFC3339Nano), est.UTC().Format(time.RFC3339Nano), capGot.UTC().Format(time.RFC3339Nano))
-			if d < wrap-tick && recvT.Unix() < eraEndUnix {
+			if recvT.Unix() >= eraEndUnix {
+				c.Probe("receive-beyond-era-end")
+			}
+			if d < wrap-tick {
 				if diff := absDiffNs(est, sendT); diff.Cmp(big.NewInt(tick+2)) > 0 {
 					what := "other"
 					if diff.Cmp(big.NewInt(63_000_000_000)) > 0 && diff.Cmp(big.NewInt(65_000_000_000)) < 0 {
